@@ -69,6 +69,13 @@ def listAppend (cfg : Cfg) (f : Forest) (m : Meta) (index : Int) (ve : VE) : For
   let r := evalVE cfg f none (some m.id) false m.part (m.path ++ [Key.i index]) ve
   r.1.mapAt m.id (fun m' xs => xs ++ [(Key.i index, r.2.setPath (m'.path ++ [Key.i index]))])
 
+/-- does the element spec `pg.typing.Object(C0)` of a typed list accept the offered value?
+(the glue offers typed lists instances of C0 — new or existing — and, as the rejected value, ints) -/
+def acceptsTyped (f : Forest) : VE → Bool
+  | .node (.obj 0) _ _ _ _ => true
+  | .ref id => (f.metaOf? id).any (fun m => m.kind == .obj 0)
+  | _ => false
+
 /-- `List._set_item_without_permission_check` (list.py:397-434).
 `ins`: the value is wrapped in `Insertion`. Returns the new forest and whether a FieldUpdate was
 produced. -/
@@ -84,7 +91,11 @@ def rawSetList (cfg : Cfg) (f : Forest) (m : Meta) (its : Items) (key : Int) (in
     match getKey its (Key.i pos) with
     | none => .error .index
     | some old =>
-      if sameValue ve (some old) then .ok (f, false) else .ok (listReplace cfg f m index pos old ve, true)
+      if sameValue ve (some old) then .ok (f, false) else
+      -- the new value is validated before anything is stored or detached
+      if m.typed && !acceptsTyped f ve then .error .type else
+      .ok (listReplace cfg f m index pos old ve, true)
+  else if m.typed && !acceptsTyped f ve then .error .type
   else if index < len then .ok (listInsert cfg f m its index its.length ve, true)
   else .ok (listAppend cfg f m index ve, true)
 
@@ -109,7 +120,8 @@ value took it in. -/
 def dictStore (cfg : Cfg) (f : Forest) (m : Meta) (its : Items) (key : Key) (ve : VE) : Forest :=
   let d := dictDetached its key
   let r := evalVE cfg f (d.bind Tree.id?) (some m.id) (isObjKind m.kind) m.part (m.path ++ [key]) ve
-  let f3 := r.1.mapAt m.id (storeKey key key r.2)
+  let nv := adoptPartial (isObjKind m.kind) m.part r.2
+  let f3 := r.1.mapAt m.id (storeKey key key nv)
   let consumed := match d.bind Tree.id? with
     | some oid => r.2.ids.contains oid
     | none => false
@@ -319,6 +331,7 @@ mutual
   def Tree.queryIdxErr : Tree → List Key → Bool
     | _, [] => false
     | .leaf (.str _), k :: ks => strWalk 2 (k :: ks)
+    | .leaf (.tup ids), (.i n) :: _ => decide (n < -(ids.length : Int))
     | .leaf _, _ :: _ => false
     | .node m its, k :: ks => queryItemsIdxErr its (normKey m.kind its.length k) ks
   def queryItemsIdxErr : Items → Key → List Key → Bool
